@@ -32,7 +32,7 @@ def gen_scenario(rng: random.Random, sid, n_members=None, n_faults=None, quiet=1
         start_delay = rng.choice([0, 0, 0.05, 0.5, 1.5, 3.0])
         life = rng.choice([2.0, 4.0, 6.0])
         fate = rng.choice(["stay", "stay", "stop", "kill"])
-        prog = [["sleep", start_delay], ["start"], ["consume", life, 0.1, rng.choice([1, 2, 5, None]), rng.choice([0, 0, 0.01])]]
+        prog = [["sleep", start_delay], ["start"], ["consume", life, rng.choice([0.1, 0.1, 1.0]), rng.choice([1, 2, 5, None, None]), rng.choice([0, 0, 0.01])]]
         if fate == "stop":
             prog.append(["stop"])
         elif fate == "kill":
@@ -42,12 +42,19 @@ def gen_scenario(rng: random.Random, sid, n_members=None, n_faults=None, quiet=1
             prog.append(["stop"])
         consumers.append({"name": f"c{i}", "group": "g", "topics": sorted(subs), "assignors": asg,
                           "auto_commit": rng.random() < 0.8, "auto_commit_interval_ms": rng.choice([100, 300, 1000]),
-                          "cb_delay": rng.choice([0, 0, 0.01, 0.2]), "program": prog})
+                          "cb_delay": rng.choice([0, 0.01, 0.2, 0.5]), "program": prog})
     events = []
     for _ in range(rng.choice([0, 1, 2, 3])):
         t = rng.choice(list(topics))
         events.append({"at": rng.choice([0.5, 1.0, 2.5, 4.0]), "op": "append", "topic": t,
                        "p": rng.randrange(topics[t]), "n": rng.choice([1, 2, 4])})
+    if rng.random() < 0.6:
+        # records arriving while members are inside a rebalance (revoke window / join barrier)
+        for c in consumers:
+            s0 = c["program"][0][1]
+            for dt in rng.sample([0.02, 0.05, 0.1, 0.15, 0.25, 0.4], 3):
+                t = rng.choice(list(topics))
+                events.append({"at": s0 + dt, "op": "append", "topic": t, "p": rng.randrange(topics[t]), "n": 1})
     if brokers > 1 and rng.random() < 0.3:
         events.append({"at": rng.choice([1.0, 2.0, 3.5]), "op": "coord_move", "to": rng.randrange(brokers),
                        "keep_state": rng.random() < 0.5})
